@@ -396,7 +396,8 @@ var stringValues = []string{"", "abc", "it's", "say \"hi\"", "a;b", "--x", "/*c*
 
 // valueParts are concatenated into composed literal values (quotes of all kinds, backslashes, escapes-as-text, control and
 // non-ASCII characters in one value: the combinations a fixed pool never has).
-var valueParts = []string{"'", "\"", "`", "\\", "a", " ", "\n", "é", "{", "}", ":", "\t", "\x00", "x", "%", "--", "/*", "*/", ";", "\\n", "\\\"", "''", "\"\"", "日", "\x7f", "\u0085", "\\u0041", "#", "?"}
+var valueParts = []string{"'", "\"", "`", "\\", "a", " ", "\n", "é", "{", "}", ":", "\t", "\x00", "x", "%", "--", "/*", "*/", ";", "\\n", "\\\"", "''", "\"\"", "日", "\x7f", "\u0085", "\\u0041", "#", "?",
+	"\xef\xbf", "\xf0\x9f", "\xe2\x82", "\xc3", "\u0080", "\u009f", "\ufffd"} // (truncated multi-byte sequences, C1 controls, U+FFFD itself)
 
 func (g *G) composedValue(tag string, bytes bool) string {
 	n := rapid.IntRange(1, 6).Draw(g.T, g.label(tag+".parts"))
